@@ -18,6 +18,8 @@ def gen(rng, tier):
     for a in GRID:
         for b in GRID:
             scripts.append([f"tombnew pages=4", f"tombsession n={a}", f"tombsession n={b}", "tombsession n=0"])
+            if a and b:
+                scripts.append([f"tombnew pages=4", f"tombsession n={a} perm={1 + (a + b) % 2}", f"tombsession n={b} perm=2", "tombsession n=0"])
     for _ in range(400 if thorough else 40):
         pages = rng.choice([1, 2, 3, 4, 8, 16])
         parts = rng.choice([1, 1, 2]) if pages >= 2 else 1
@@ -25,7 +27,9 @@ def gen(rng, tier):
         for _ in range(rng.randrange(1, 7 if thorough else 5)):
             n = rng.choice(GRID + [2, 17, 100, 700, rng.randrange(0, 1200)])
             each = 1 if (n <= 40 and rng.random() < 0.5) else 0
-            s.append(f"tombsession n={n} each={each}")
+            # the order in which a batch reaches the log: sequence order, reversed, or evens before odds (two flushers)
+            perm = rng.choice([0, 0, 1, 2])
+            s.append(f"tombsession n={n} each={each}" + (f" perm={perm}" if perm else ""))
         s.append("tombsession n=0")
         scripts.append(s)
     return scripts
@@ -98,8 +102,31 @@ def run(pid, tier, seed, gate, replay=None):
                 if rng.random() < 0.3:
                     ops += ["wait", "close", "reopen"]
             ops += ["wait", "close", "reopen"] + [f"get k={k}" for k in keys] + ["close", "reopen"] + [f"get k={k}" for k in keys]
-            hs.append(H.cfg_line(policy=rng.choice(["woi", "woe"]), algo="fifo", mem=rng.choice([2, 100]), univ=4, tomb=1, blocks=16)
+            hs.append(H.cfg_line(policy=rng.choice(["woi", "woe"]), algo="fifo", mem=rng.choice([2, 100]), univ=4, tomb=1, blocks=16,
+                                 flushers=rng.choice([1, 2, 3]))
                       + "\n" + "\n".join(ops) + "\n")
+        # several flushers, runs of back-to-back deletes of keys that go to different flushers, restarts in between
+        for _ in range(20 if tier == "thorough" else 4):
+            nk = 10
+            ops, ver = [], 1
+            for k in range(nk):
+                ops.append(f"ins k={k} ver={ver} size=1000"); ver += 1
+            ops += ["wait", "memevict"]
+            alive = list(range(nk))
+            for cycle in range(rng.choice([2, 3])):
+                rng.shuffle(alive)
+                for k in alive[:rng.choice([2, 3, 5])]:
+                    ops.append(f"rm k={k}")
+                alive = alive[5:] if len(alive) > 5 else alive
+                if rng.random() < 0.5:
+                    ops.append("wait")
+                    if alive:
+                        ops += [f"rm k={alive[0]}", "wait"]
+                ops += ["wait", "close", "reopen"]
+            ops += [f"get k={k}" for k in range(nk)]
+            hs.append(H.cfg_line(policy="woi", algo="fifo", mem=100, univ=nk, tomb=1, blocks=16, flushers=rng.choice([2, 3]))
+                      + "\n" + "\n".join(ops) + "\n")
+        hs = [open(f).read() for f in sorted(__import__("glob").glob(__import__("os").path.join(C.ROOT, "corpus", pid, "*.script")))] + hs
         for sc, (cfgl, lines) in zip(hs, H.run_many(hs)):
             o = H.oracle_c01(cfgl, lines)
             if o:
